@@ -343,6 +343,33 @@ Example tree_any_walk_ex :
   sel_tree ex_codes (fun _ => Some 3%nat) 0 11 ex_root = preorder ex_codes (header_len ex_header) 0 ex_forest.
 Proof. split; [vm_compute; tauto|]. split; vm_compute; reflexivity. Qed.
 
+(* the shape on which a wrong depth after the fast path shows, run through the MODEL: the root (offset 11)
+   has the children A (12: children, no sibling pointer) and a leaf (18); A's child X (13) has a child and a
+   DW_AT_sibling (= 17). The strategy does not descend into A, so EntriesTree::next(1) scans A's subtree,
+   jumps from X to 17 — keeping X's depth 2 — reads A's terminator at depth 2, and finds the leaf. (With the
+   caller's depth 1 instead, the terminator at 17 would be taken for the end of the root's list.) *)
+Definition trap_leaf : tree := Node 52 false [] [].
+Definition trap_x : tree := Node 46 false [ISib W1] [trap_leaf].
+Definition trap_a : tree := Node 11 false [] [trap_x].
+Definition trap_root : tree := Node 17 false [] [trap_a; trap_leaf].
+Definition trap_codes : coding := fun tag hc specs => tag.
+Definition trap_sel : strategy := fun d => if d_tag d =? 11 then None else Some 5%nat.
+Definition trap_body : list byte := enc_forest trap_codes false (header_len ex_header) [trap_root] 0.
+
+Example tree_any_walk_trap :
+  trap_body = [x11; x0b; x2e; x11; x34; x00; x00; x34; x00]%byte /\
+  exists tbl ts,
+    parse_abbrevs true (enc_abbrevs (forest_abbrevs trap_codes [trap_root])) = Ok (tbl, []) /\
+    entries_tree true (mkUnit ex_enc (unit_length_of false ex_header (nlen trap_body)) UCompile 0 false 0 trap_body)
+                 (Some 11) = Ok ts /\
+    walk_tree_plan true ex_enc tbl trap_sel ts = Ok (sel_tree trap_codes trap_sel 0 11 trap_root, None) /\
+    map (fun d => (d_offset d, d_depth d, d_tag d)) (sel_tree trap_codes trap_sel 0 11 trap_root) =
+      [(11, 0%Z, 17); (12, 1%Z, 11); (18, 1%Z, 52)].
+Proof.
+  split; [vm_compute; reflexivity|]. eexists. eexists.
+  split; [vm_compute; reflexivity|]. split; [vm_compute; reflexivity|]. split; vm_compute; reflexivity.
+Qed.
+
 (* (6c) the same for the cloned-cursor recursion (clone the cursor on an entry, next_entry to its
         first child, next_sibling along the child list — Model/TreeWalk.v cwalk_list): for EVERY strategy
         and every budget n of top-level entries the entries visited are the selected sub-forest of the
